@@ -414,6 +414,28 @@ func RunSeq(seed int64, p SeqProfile) (out []Ev) {
 			g.dump()
 			continue
 		}
+		if p.Keyed && g.rnd.Float64() < 0.15 {
+			// one key operation through the collection's one-call shortcuts
+			key := g.P.Keys[g.rnd.Intn(len(g.P.Keys))]
+			var nonKey []ColDesc
+			for _, d := range g.P.Cols {
+				if d.Kind != "key" {
+					nonKey = append(nonKey, d)
+				}
+			}
+			switch g.rnd.Intn(4) {
+			case 0:
+				g.P.ShortInsertKey("m", key, g.writes(nonKey, g.rnd.Intn(3), 0, false))
+			case 1:
+				g.P.ShortUpsertKey("m", key, g.writes(nonKey, g.rnd.Intn(3), 0, false))
+			case 2:
+				g.P.ShortQueryKey("m", key, g.writes(nonKey, g.rnd.Intn(2), 0, false), []int{0, 2}[g.rnd.Intn(2)])
+			default:
+				g.P.ShortDeleteKey("m", key)
+			}
+			g.dump()
+			continue
+		}
 		if !p.Keyed && g.rnd.Float64() < 0.15 {
 			// one operation through the collection's one-call shortcuts (Insert, QueryAt, DeleteAt)
 			r := g.rnd.Float64()
